@@ -1,5 +1,8 @@
 pub mod c03;
 pub mod c04;
+pub mod c05;
+pub mod c06;
+pub mod c07;
 pub mod c11;
 pub mod c12;
 pub mod server_props;
